@@ -1,0 +1,61 @@
+//go:build verif
+
+package pals
+
+// Bounded stand-in for C16: pairs built with the package's own constructor NewPair carry their mate links through
+// the piler - a pair filter sees the pair of every image, and Mate() of a piled feature is the other feature.
+
+import (
+	"fmt"
+	"testing"
+
+	"github.com/biogo/biogo/align/pals/dp"
+	"github.com/biogo/biogo/alphabet"
+	"github.com/biogo/biogo/seq/linear"
+)
+
+func TestVerifBounded_C16_NewPairLinks(t *testing.T) {
+	mk := func(id string, n int) *Packed {
+		s := linear.NewSeq(id, alphabet.Letter('A').Repeat(n), alphabet.DNA)
+		pk := NewPacker(id)
+		if _, err := pk.Pack(s); err != nil {
+			t.Fatal(err)
+		}
+		return pk.FinalisePack()
+	}
+	target, query := mk("t", 1000), mk("q", 1000)
+	cases := 0
+	for _, comp := range []bool{false, true} {
+		p := NewPiler(0)
+		for _, h := range []dp.Hit{
+			{Abpos: 10, Aepos: 110, Bbpos: 300, Bepos: 400, Score: 100},
+			{Abpos: 110, Aepos: 200, Bbpos: 600, Bepos: 690, Score: 90}, // the target image abuts the first one
+			{Abpos: 500, Aepos: 560, Bbpos: 10, Bepos: 70, Score: 60},
+		} {
+			cases++
+			fp, err := NewPair(target, query, h, comp)
+			if err != nil {
+				t.Fatal(err)
+			}
+			if fp.A.Pair != fp || fp.B.Pair != fp {
+				t.Fatalf("NewPair(%+v): the features do not point back at their pair (A.Pair=%v B.Pair=%v)", h, fp.A.Pair, fp.B.Pair)
+			}
+			if err := p.Add(fp); err != nil {
+				t.Fatal(err)
+			}
+		}
+		images := 0
+		for _, pl := range p.Piles(func(fp *Pair) bool { return fp != nil && fp.Score >= 50 }) {
+			for _, im := range pl.Images {
+				images++
+				if m := im.Mate(); m == nil || m.Mate() != im {
+					t.Fatalf("mate link of %v not intact", im)
+				}
+			}
+		}
+		if images != 6 {
+			t.Fatalf("%d images in the piles, want 6", images)
+		}
+	}
+	fmt.Printf("BOUNDED name=C16.newpair-links cases=%d nontrivial=%d exhaustive=false domain=%q\n", cases, cases, "3 hits on two packed 1 kb sequences, both strands, built with NewPair, piled with a pair filter")
+}
